@@ -40,6 +40,17 @@ func TestMain(m *testing.M) {
 		}
 		return err
 	})
+	pbt.RegisterReplay("testnet_forks", func(raw json.RawMessage) error {
+		var c sim.Case
+		if err := json.Unmarshal(raw, &c); err != nil {
+			return err
+		}
+		s, err := runOnTemplate(c, nil)
+		if s != nil {
+			s.Close()
+		}
+		return err
+	})
 	pbt.Main(m, "C06")
 }
 
@@ -159,6 +170,83 @@ func genRetargetForks(t *rapid.T) sim.Case {
 		c.Ops = append(c.Ops, op)
 	}
 	return c
+}
+
+// Forks on a TEST NETWORK behind a retarget that made the target harder than the limit: a block more than 20 minutes
+// after its parent is a minimum-difficulty block, any other one carries the real target, so the branches of a fork mix
+// blocks of two difficulties - and the branch with the most work is often not the one with the most blocks, nor the one
+// whose last block is the heaviest.
+func genTestnetForks(t *rapid.T) sim.Case {
+	sh, _ := pbt.Shard()
+	fast := []combo{{2013, 150}, {2014, 300}, {2013, 149}, {2012, 151}}
+	cb := fast[sh%len(fast)]
+	c := sim.Case{Params: sim.ParamSpec{BIP34: 1, BIP65: 1, BIP66: 1, CSV: 1, Segwit: 1, Taproot: 1,
+		Prefix: cb.prefix, Spacing: cb.spacing, PowBits: 0x207fffff, Testnet: true}}
+	blk := func(parent int, step uint32) sim.Op {
+		op := sim.GenOp(t, sim.Profile{MaxTx: 2})
+		op.Kind, op.Parent, op.Viol, op.Hold, op.Step = "block", parent, "", false, step
+		return op
+	}
+	// across the boundary with regular blocks (the retarget makes the target 2..4 times harder)
+	for i, n := 0, 2016-cb.prefix+rapid.IntRange(0, 2).Draw(t, "beyond"); i < n; i++ {
+		c.Ops = append(c.Ops, blk(-1, cb.spacing))
+	}
+	steps := []uint32{300, 600, 1199, 1200, 1201, 1500, 2400}
+	p := profile
+	p.Prefixes, p.Viols, p.ViolPct = nil, nil, 0
+	for i, n := 0, rapid.IntRange(5, 16).Draw(t, "n"); i < n; i++ {
+		op := sim.GenOp(t, p)
+		if op.Kind == "block" {
+			op.Step = rapid.SampledFrom(steps).Draw(t, "step")
+		}
+		c.Ops = append(c.Ops, op)
+	}
+	return c
+}
+
+func TestTestnetForks(t *testing.T) {
+	pbt.Check(t, pbt.Cfg{Name: "testnet_forks", Quick: 96, Thorough: 1600}, func(r *pbt.Run) {
+		c := genTestnetForks(r.T)
+		r.Case(c)
+		s, err := runOnTemplate(c, pbt.FindingOpen)
+		if s != nil {
+			defer s.Close()
+			for _, k := range s.ExcludedKeys {
+				r.Excluded(k)
+			}
+			mixed := map[uint32]bool{}
+			for _, n := range s.Nodes {
+				if int(n.Idx.Height) > 2016 {
+					mixed[n.Idx.Header.Bits] = true
+				}
+			}
+			if len(mixed) > 1 {
+				r.Class("blocks_of_two_difficulties_behind_the_retarget")
+			}
+			if s.Reorgs > 0 {
+				r.Class("reorg")
+				if len(mixed) > 1 {
+					r.NonTrivial()
+				}
+			}
+			for _, l := range s.Labels {
+				if l == "reorg-to-shorter-branch" {
+					r.Class("reorg_to_shorter_heavier_branch")
+					break
+				}
+			}
+			if s.NearTies > 0 {
+				r.Class("near_tie")
+			}
+		}
+		if x, ok := err.(*sim.Excluded); ok {
+			r.Excluded(x.Key)
+			return
+		}
+		if err != nil {
+			r.Failf("%v", err)
+		}
+	})
 }
 
 func TestRetargetForks(t *testing.T) {
